@@ -167,6 +167,9 @@ pub(crate) enum ServiceRequest {
     /// Sets up an event stream where the discv5 server will return various events such as
     /// discovered nodes as it traverses the DHT.
     RequestEventStream(oneshot::Sender<mpsc::Receiver<Event>>),
+    /// Verification hook: virtual time for the `std::time` users of the service (query pool, IP votes).
+    #[cfg(discv5_verif)]
+    VerifAge(std::time::Duration),
 }
 
 use crate::discv5::PERMIT_BAN_LIST;
@@ -428,6 +431,13 @@ impl Service {
                             self.event_stream = Some(event_stream);
                             if callback.send(event_stream_recv).is_err() {
                                 error!("Failed to return the event stream channel");
+                            }
+                        }
+                        #[cfg(discv5_verif)]
+                        ServiceRequest::VerifAge(d) => {
+                            self.queries.verif_age(d);
+                            if let Some(votes) = self.ip_votes.as_mut() {
+                                votes.verif_age(d);
                             }
                         }
                     }
